@@ -435,6 +435,30 @@ def extract(src, problems, soft=()):
         bools['url_helpers_keep_no_request_state'] = True
     attempt('request state', stateless)
 
+    def request_class():
+        """pyramid.request.Request mixes URLMethodsMixin in and shadows none of its names; the header the harness
+        sets for the virtual root is the one ResourceURL reads"""
+        rq = F.Module(src, 'pyramid/request.py')
+        cls = _need(rq.find('Request'), 'pyramid.request.Request')
+        bases = [ast.unparse(b) for b in cls.bases]
+        if 'URLMethodsMixin' not in bases or not bases or bases[0] != 'BaseRequest':
+            raise Bad('bases of Request: %s' % bases)
+        mix = _need(url.find('URLMethodsMixin'), 'URLMethodsMixin')
+        names = {n.name for n in mix.body if isinstance(n, ast.FunctionDef)} | \
+            {'script_name', 'environ', 'application_url', 'host_url', 'scheme', 'url_encoding', 'GET', 'matchdict', 'matched_route'}
+        for st in cls.body:
+            defined = [st.name] if isinstance(st, (ast.FunctionDef, ast.ClassDef)) else \
+                [t.id for t in getattr(st, 'targets', []) if isinstance(t, ast.Name)]
+            bad = [d for d in defined if d in names and d not in ('matchdict', 'matched_route')]
+            if bad:
+                raise Bad('Request defines %s itself' % bad)
+        _imports(rq, 'pyramid.url', ['URLMethodsMixin'])
+        itf = F.Module(src, 'pyramid/interfaces.py')
+        if itf.const('VH_ROOT_KEY') != 'HTTP_X_VHM_ROOT':
+            raise Bad('VH_ROOT_KEY is %r' % itf.const('VH_ROOT_KEY'))
+        _imports(trav, 'pyramid.interfaces', ['VH_ROOT_KEY'])
+    attempt('request class', request_class)
+
     def static():
         fn = _need(views.find('StaticURLInfo.generate'), 'StaticURLInfo.generate')
         keys = [n.targets[0].slice.value for n in ast.walk(fn)
